@@ -259,4 +259,11 @@ def rm_no_process_lifetime_results(ctx: Ctx) -> None:
     state_rule(ctx)
 
 
-RULES = [r1_who_may_call, r2_accumulate_then_flush, r3_position_nodes, r4_writers_place_blocks, r5_mapping_laws, r6_layout_agreement, rb_binding_agreement, rm_no_process_lifetime_results]
+def ru_names_bound(ctx: Ctx) -> None:
+    """a local read but never bound raises NameError for every input that reaches the statement (shared rule, names.py)"""
+    from ..names import names_rule
+
+    names_rule(ctx)
+
+
+RULES = [r1_who_may_call, r2_accumulate_then_flush, r3_position_nodes, r4_writers_place_blocks, r5_mapping_laws, r6_layout_agreement, rb_binding_agreement, rm_no_process_lifetime_results, ru_names_bound]
